@@ -103,7 +103,10 @@ Definition verify (root_hash leaf : bytes) (p : proof) : bool :=
   if pf_total p <? 0 then false
   else if pf_index p <? 0 then false
   else if negb (bytes_eqb (pf_leaf_hash p) (leaf_hash leaf)) then false
-  else bytes_eqb (compute_root p) root_hash.
+  else match from_aunts (pf_index p) (pf_total p) (pf_leaf_hash p) (rev (pf_aunts p)) with
+       | Some h => bytes_eqb h root_hash
+       | None => false      (* no root can be computed: refused whatever root_hash is (F40) *)
+       end.
 
 (* Proof.ValidateBasic *)
 Definition proof_validate_basic (p : proof) : bool :=
